@@ -6,11 +6,35 @@ pub mod sync {
         // a sender is identified by the ghost id of its channel
         pub struct Sender<T> { pub ghost chan: int, pub _p: core::marker::PhantomData<T> }
         pub struct Receiver<T> { pub ghost chan: int, pub _p: core::marker::PhantomData<T> }
+        // what is known about every value taken out of a queue (the invariant the senders maintain; see client::message::axiom_queue_inv)
+        pub uninterp spec fn queue_inv<T>(v: T) -> bool;
         impl<T> Receiver<T> {
             // the environment decides what arrives and when; None = every sender has been dropped
             #[verifier::external_body]
-            pub async fn recv(&mut self) -> (r: Option<T>) ensures final(self).chan == old(self).chan, { unimplemented!() }
+            pub async fn recv(&mut self) -> (r: Option<T>) ensures final(self).chan == old(self).chan, r matches Some(v) ==> queue_inv(v), { unimplemented!() }
         }
     }
 }
 //@trusted tokio::sync::mpsc::{Sender,Receiver}: opaque handles identified by a ghost channel id; delivery / drop propagation not modelled
+pub mod time {
+    use vstd::prelude::*;
+    // wall-clock time is not modelled: an Instant is an opaque point in time, timers fire no earlier than their deadline (assumed)
+    pub struct Instant { pub ghost t: int }
+    impl Instant {
+        #[verifier::external_body]
+        pub fn now() -> (r: Instant) { unimplemented!() }
+    }
+    impl vstd::std_specs::ops::AddSpecImpl<std::time::Duration> for Instant {
+        open spec fn obeys_add_spec() -> bool { false }
+        open spec fn add_req(self, rhs: std::time::Duration) -> bool { true }
+        open spec fn add_spec(self, rhs: std::time::Duration) -> Instant { self }
+    }
+    impl core::ops::Add<std::time::Duration> for Instant {
+        type Output = Instant;
+        #[verifier::external_body]
+        fn add(self, rhs: std::time::Duration) -> (r: Instant) ensures r.t == self.t + crate::nanos(rhs) { unimplemented!() }
+    }
+    #[verifier::external_body]
+    pub async fn sleep_until(deadline: Instant) { unimplemented!() }
+}
+//@trusted tokio::time::{Instant, sleep_until}: opaque; a timer fires no earlier than its deadline (not modelled)
